@@ -13,6 +13,36 @@ Theorem C10_region_new_refuses : forall (A : Type) (mk : N -> N -> A) base size,
   (base + size < W64 -> region_new mk base size = Ok (mk base size)).
 Proof. exact @region_new_refuses_lemma. Qed.
 
+(* EVERY constructor route (0.7.w5): GuestRegionMmap::from_range with or without a backing file, in the standard
+   and in the Xen build (= the mapping step, then GuestRegionMmap::new) creates exactly the region asked for, and
+   only one that has at least one byte and ends below 2^64; a request with base + size >= 2^64 is refused by
+   every route; a request that fits, whose file (if any) covers the range, is granted *)
+Theorem C10_every_route_refuses : forall (A : Type) (mk : N -> N -> A) base size file,
+  (forall g, region_from_range_opt mk base size file = Ok g -> g = mk base size /\ 1 <= size /\ base + size < W64) /\
+  (W64 <= base + size -> exists e, region_from_range_opt mk base size file = Err e) /\
+  (1 <= size -> base + size < W64 ->
+   match file with Some (start, flen) => start + size <= flen /\ start + size < W64 | None => True end ->
+   region_from_range_opt mk base size file = Ok (mk base size)).
+Proof. exact every_route_refuses_lemma. Qed.
+
+(* from_ranges / from_ranges_with_files: the regions handed to from_regions are the requested ranges, each
+   creatable (>= 1 byte, end < 2^64); one range that does not fit (or is empty) and no map is built at all *)
+Theorem C10_ranges_with_files_refuse : forall (A : Type) (rs rl : A -> N) (mk : N -> N -> N -> A),
+  (forall id b s, rs (mk id b s) = b /\ rl (mk id b s) = s) ->
+  forall id l,
+  (forall L, collect_ranges_files mk id l = Ok L ->
+     Forall (region_ok rs rl) L /\ map (fun g => (rs g, rl g)) L = map fst l) /\
+  (forall s len fl, In (s, len, fl) l -> W64 <= s + len \/ len = 0 ->
+     exists e, collect_ranges_files mk id l = Err e).
+Proof. exact ranges_with_files_refuse_lemma. Qed.
+
+(* with the backing files of the harness (file_of_tag: a file that covers the range) every route decides like
+   the spelled-out MmapRegion::new + GuestRegionMmap::new *)
+Theorem C10_routes_agree : forall (A : Type) (mk : N -> N -> A) (mk3 : N -> N -> N -> A) f base size id l,
+  region_from_range_opt mk base size (file_of_tag f size) = region_from_range mk base size /\
+  collect_ranges_files mk3 id (with_files l) = collect_ranges mk3 id (strip_files l).
+Proof. exact routes_agree_lemma. Qed.
+
 (* wf_layout (non-empty regions ending below 2^64, strictly sorted, pairwise disjoint) is the same as
    "every region lies entirely below every later one" *)
 Theorem C10_wf_layout_before : forall (A : Type) (rs rl : A -> N) L,
@@ -141,9 +171,25 @@ Proof.
   - repeat constructor; unfold before; cbn; lia.
 Qed.
 
+(* non-vacuity of the routes: at the top of the address space every route (spelled out, from_range without a
+   file, with a file at offset 0 / 65536) creates the 4096-byte region ending at 2^64 - 2 and refuses the one whose
+   end is 2^64; from_ranges_with_files builds the two-region map, and no map when the last range ends at 2^64 *)
+Example C10_routes_nonvacuous :
+  let B := W64 - 4097 in
+  run_C10 {| c_mode := Debug; c_ops :=
+    [ONew B 4096; ONewVia 0 B 4096; ONewVia 1 B 4096; ONewVia 2 B 4096;
+     ONew (B + 1) 4096; ONewVia 0 (B + 1) 4096; ONewVia 1 (B + 1) 4096; ONewVia 2 (B + 2) 4096;
+     OFromRangesF [(4096, 4096, 1); (B, 4096, 2)]; OFromRangesF [(4096, 4096, 0); (B + 1, 4096, 1)]] |} =
+  [mkobs 0 []; mkobs 0 []; mkobs 0 []; mkobs 0 []; mkobs 1 []; mkobs 1 []; mkobs 1 []; mkobs 1 [];
+   mkobs 0 [mkreg 8 4096 4096; mkreg 9 B 4096]; mkobs 1 []].
+Proof. vm_compute. reflexivity. Qed.
+
 Print Assumptions C10_model_ok.
 Print Assumptions C10_history_valid.
 Print Assumptions C10_region_new_refuses.
+Print Assumptions C10_every_route_refuses.
+Print Assumptions C10_ranges_with_files_refuse.
+Print Assumptions C10_routes_agree.
 Print Assumptions C10_wf_layout_before.
 Print Assumptions C10_from_ok_iff.
 Print Assumptions C10_from_err_iff.
